@@ -14,6 +14,11 @@ Decides (from the syntax trees of batch/batch/batch_format_version.py and batch/
       region (no early exit) with the same linear shift s = s' of the same mapping value; the writer asserts a bound that keeps the highest bit <= 62 (signed BIGINT)
       and the lowest >= 0 for region ids >= 1; the reader returns the mapping *keys* whose bit is set.  A reader that enumerates bit positions and looks the region up in
       a dense sequence of names (rank, not id) with an index computed from the position alone is reported: it inverts the writer only when the ids are exactly 1..n
+      An EARLY EXIT of the reader's loop (`if <cond>: break` / `return result`) is decided when <cond> has a "this id lies past the highest set bit" normal form
+      (id >= bits.bit_length() + c, from a linear comparison with bit_length(), `bits >> f(id) == 0`, `bits < 1 << f(id)`): it is sound iff the pairs are visited in ascending
+      id order (sorted(.items(), key=<second component>), or plain .items() when EVERY builder of app['regions'] under batch/batch reads the rows ORDER BY region_id) AND
+      the threshold implies that the first untested bit position is >= bit_length; plain .items() over un-ORDERed SELECTs / name order is reported with a witness mapping.
+      Other exit conditions are declined
   R5  presence, not truthiness: every place where the writer or a reader consults the TRUTHINESS of a value (if / and / or / not / all() / any() / comprehension filter /
       conditional expression) is classified by what the value may be (flow-insensitive value descriptors: spec field paths, records built here, stored positions mapped
       back through the writer); a field whose domain contains a legitimate falsy value (bool_type, int_type, a required str_type; domains are read off job_validator
@@ -832,9 +837,76 @@ def _strip_early_returns(ctx: Ctx, m: pf.Module, fn: pf.FuncDef, role: str) -> p
     return fn2
 
 
+def _canon_region_fn(m: pf.Module, fn: pf.FuncDef) -> pf.FuncDef:
+    """Behaviour-preserving spellings of the region helpers mapped to the form the rules read (on a copy; every rewrite is a syntactic equivalence):
+      * `return [E for T in IT if C]`  ->  `res = []; for T in IT: if C: res.append(E); return res`
+      * inside a loop body, a local assigned once to a pure arithmetic expression (`bit = 1 << (idx - 1)`) is substituted into the statements after it
+      * a name in an `assert` that is a module-level integer constant is replaced by its value"""
+    import copy
+    fn2 = copy.deepcopy(fn)
+    # list comprehension returned directly
+    for i, st in enumerate(list(fn2.body)):
+        if isinstance(st, ast.Return) and isinstance(st.value, ast.ListComp) and len(st.value.generators) == 1 and not st.value.generators[0].is_async:
+            g = st.value.generators[0]
+            res = ast.Name(id='result__', ctx=ast.Load())
+            app: ast.stmt = ast.Expr(value=ast.Call(func=ast.Attribute(value=res, attr='append', ctx=ast.Load()), args=[st.value.elt], keywords=[]))
+            for c in reversed(g.ifs):
+                app = ast.If(test=c, body=[app], orelse=[])
+            loop = ast.For(target=g.target, iter=g.iter, body=[app], orelse=[])
+            init = ast.Assign(targets=[ast.Name(id='result__', ctx=ast.Store())], value=ast.List(elts=[], ctx=ast.Load()))
+            ret = ast.Return(value=ast.Name(id='result__', ctx=ast.Load()))
+            new = [init, loop, ret]
+            for n_ in new:
+                ast.copy_location(n_, st)
+                for x in ast.walk(n_):
+                    if not hasattr(x, 'lineno'):
+                        ast.copy_location(x, st)
+            fn2.body[i:i + 1] = new
+            break
+    # arithmetic locals inside loop bodies
+    asg = pf.assignments(fn2)
+
+    class _S(ast.NodeTransformer):
+        def __init__(self, name: str, val: ast.AST):
+            self.name, self.val = name, val
+
+        def visit_Name(self, node: ast.Name):
+            if node.id == self.name and isinstance(node.ctx, ast.Load):
+                return copy.deepcopy(self.val)
+            return node
+    for lp in [n for n in ast.walk(fn2) if isinstance(n, ast.For)]:
+        inside = {id(x) for st in lp.body for x in ast.walk(st)}
+        i = 0
+        while i < len(lp.body):
+            st = lp.body[i]
+            if isinstance(st, ast.Assign) and len(st.targets) == 1 and isinstance(st.targets[0], ast.Name) and isinstance(st.value, (ast.BinOp, ast.UnaryOp)) \
+                    and all(isinstance(x, (ast.BinOp, ast.UnaryOp, ast.Name, ast.Constant, ast.operator, ast.unaryop, ast.expr_context)) for x in ast.walk(st.value)):
+                n = st.targets[0].id
+                used_outside = any(isinstance(x, ast.Name) and x.id == n and id(x) not in inside for x in ast.walk(fn2))
+                if len(asg.get(n, [])) == 1 and not used_outside and all(len(asg.get(y, [])) <= 1 for y in pf.names_in(st.value)) and n not in pf.names_in(st.value):
+                    sub = _S(n, st.value)
+                    lp.body[i + 1:] = [sub.visit(s2) for s2 in lp.body[i + 1:]]
+                    del lp.body[i]
+                    continue
+            i += 1
+    # module-level integer constants in asserts
+    for a in [n for n in ast.walk(fn2) if isinstance(n, ast.Assert)]:
+        local = set(pf.assignments(fn2))
+        for x in list(ast.walk(a.test)):
+            if isinstance(x, ast.Name) and x.id not in local:
+                try:
+                    v = m.global_assign(x.id)
+                except AnalysisError:
+                    continue
+                if isinstance(v, ast.Constant) and isinstance(v.value, int) and not isinstance(v.value, bool):
+                    a.test = _S(x.id, v).visit(a.test)
+    ast.fix_missing_locations(fn2)
+    return fn2
+
+
 def _check_regions(ctx: Ctx) -> None:
     m = pf.load(FU)
-    w = m.func('regions_to_bits_rep')
+    w = _canon_region_fn(m, m.func('regions_to_bits_rep'))
     wp = [a.arg for a in w.args.args]
     ctx.need(len(wp) == 2, f'regions_to_bits_rep parameters {wp}')
     w = _strip_early_returns(ctx, m, w, 'encoder')
@@ -915,7 +987,7 @@ def _inverse_map(fn: pf.FuncDef, e: ast.AST, mapname: str) -> bool:
 
 
 def _decoder(ctx: Ctx, m: pf.Module, aw: int, bw: int, sh: ast.BinOp) -> None:
-    r = m.func('regions_bits_rep_to_regions')
+    r = _canon_region_fn(m, m.func('regions_bits_rep_to_regions'))
     rp = [a.arg for a in r.args.args]
     ctx.need(len(rp) == 2, f'regions_bits_rep_to_regions parameters {rp}')
     r = _strip_early_returns(ctx, m, r, 'decoder')
@@ -937,7 +1009,9 @@ def _decoder(ctx: Ctx, m: pf.Module, aw: int, bw: int, sh: ast.BinOp) -> None:
         rkey, ridx = lp.target.elts[0].id, lp.target.elts[1].id  # type: ignore[union-attr]
     else:
         raise AnalysisError(f'regions_bits_rep_to_regions: loop `for {pf.nsrc(lp.target)} in {it}` is not over {rp[1]}.items()')
-    shifts_r = [n for n in ast.walk(lp) if isinstance(n, ast.BinOp) and isinstance(n.op, ast.RShift)]
+    exit_tests = [st.test for st in lp.body if isinstance(st, ast.If) and not st.orelse and len(st.body) == 1 and isinstance(st.body[0], (ast.Break, ast.Return))]
+    in_exit_test = {id(x) for t in exit_tests for x in ast.walk(t)}   # `if not bits >> idx - 1: break` is judged by _early_exit, it is not the bit test
+    shifts_r = [n for n in ast.walk(lp) if isinstance(n, ast.BinOp) and isinstance(n.op, ast.RShift) and id(n) not in in_exit_test]
     ctx.need(len(shifts_r) == 1, f'regions_bits_rep_to_regions: {len(shifts_r)} right shifts')
     rs = shifts_r[0]
     ctx.need(pf.nsrc(rs.left) == rp[0], f'regions_bits_rep_to_regions: `{pf.nsrc(rs)}` does not shift {rp[0]}')
@@ -974,9 +1048,187 @@ def _decoder(ctx: Ctx, m: pf.Module, aw: int, bw: int, sh: ast.BinOp) -> None:
     app_stmt = par2.get(apps[0])
     app_block = next((blk for n in ast.walk(lp) for fld in ('body', 'orelse') for blk in [getattr(n, fld, None)] if isinstance(blk, list) and any(x is app_stmt for x in blk)), [])
     after_append = [x for x in exits if any(x is y for y in app_block)]
-    ctx.need(not exits or after_append, f'regions_bits_rep_to_regions: the loop over the known regions is left early by `{pf.nsrc(exits[0]) if exits else ""}` (condition not analysed)')
+    if exits and not after_append:
+        _early_exit(ctx, m, r, rp, lp, rkey, ridx, exits, aw, bw, app_stmt, pf.nsrc(outside[0].value) if outside[0].value is not None else None)
+        return
     ctx.check(not after_append, 'R4', cons_r + '::every region tested', 'the loop over the known regions stops right after the first selected region is appended: a job restricted to two regions '
               '(bits 0b101) is read back with one', m.path, after_append[0].lineno if after_append else lp.lineno)
+
+
+def _iteration_order(lp: ast.For) -> Tuple[str, str]:
+    """Order in which `for name, id in <iter>` visits the pairs of the mapping, read off the iterable expression:
+    ('insertion', ..) plain .items() (dict insertion order: whatever order the rows of `regions` were SELECTed in) | ('name', ..) sorted(.items()) |
+    ('id', ..) sorted(.items(), key=<second component>) ascending | ('unknown', why)."""
+    e = lp.iter
+    while isinstance(e, ast.Call) and pf.dotted(e.func) in ('list', 'tuple', 'iter') and len(e.args) == 1 and not e.keywords:
+        e = e.args[0]
+    if isinstance(e, ast.Call) and isinstance(e.func, ast.Attribute) and e.func.attr == 'items' and not e.args:
+        return 'insertion', pf.nsrc(e)
+    if isinstance(e, ast.Call) and pf.dotted(e.func) == 'sorted' and len(e.args) == 1 and isinstance(e.args[0], ast.Call) and isinstance(e.args[0].func, ast.Attribute) \
+            and e.args[0].func.attr == 'items':
+        kws = {k.arg: k.value for k in e.keywords}
+        if set(kws) - {'key', 'reverse'}:
+            return 'unknown', pf.nsrc(e)
+        rev = kws.get('reverse')
+        if rev is not None and not (isinstance(rev, ast.Constant) and rev.value is False):
+            return 'unknown', f'{pf.nsrc(e)} (descending)'
+        key = kws.get('key')
+        if key is None:
+            return 'name', pf.nsrc(e)
+        if isinstance(key, ast.Lambda) and len(key.args.args) == 1 and isinstance(key.body, ast.Subscript) and pf.nsrc(key.body.value) == key.args.args[0].arg \
+                and isinstance(key.body.slice, ast.Constant) and key.body.slice.value in (0, 1):
+            return ('id' if key.body.slice.value == 1 else 'name'), pf.nsrc(e)
+        if isinstance(key, ast.Call) and (pf.dotted(key.func) or '').split('.')[-1] == 'itemgetter' and len(key.args) == 1 and isinstance(key.args[0], ast.Constant) \
+                and key.args[0].value in (0, 1):
+            return ('id' if key.args[0].value == 1 else 'name'), pf.nsrc(e)
+        return 'unknown', pf.nsrc(e)
+    return 'unknown', pf.nsrc(e)
+
+
+def _past_top_bit(test: ast.AST, bits: str, ridx: str) -> Optional[int]:
+    """Normal form of an exit condition that says "this id lies past the highest set bit": returns lo such that  test <=> id >= bits.bit_length() + lo, or None.
+    Recognised: linear comparisons of the id with bits.bit_length();  (bits >> f(id)) == 0 / not (bits >> f(id));  bits < (1 << f(id)) / bits < 2 ** f(id)   (f linear, slope 1):
+    bits >> s == 0  <=>  bits < 2**s  <=>  bit_length <= s."""
+    from engines import asyncfacts as af
+    bl = f'{bits}.bit_length()'
+    t = test
+    if isinstance(t, ast.UnaryOp) and isinstance(t.op, ast.Not):
+        t = ast.Compare(left=t.operand, ops=[ast.Eq()], comparators=[ast.Constant(value=0)])
+
+    def shift_of(e: ast.AST, op) -> Optional[ast.AST]:
+        if isinstance(e, ast.BinOp) and isinstance(e.op, op):
+            return e
+        return None
+    if isinstance(t, ast.Compare) and len(t.ops) == 1:
+        L, R, op = t.left, t.comparators[0], t.ops[0]
+        # (bits >> S) == 0  /  0 == (bits >> S)
+        for x, y in ((L, R), (R, L)):
+            sh = shift_of(x, ast.RShift)
+            if sh is not None and pf.nsrc(sh.left) == bits and isinstance(y, ast.Constant) and y.value == 0 and isinstance(op, ast.Eq):
+                try:
+                    a, b = _lin(sh.right, ridx)
+                except AnalysisError:
+                    return None
+                return -b if a == 1 else None         # B <= I + b  <=>  I >= B - b
+        # bits < (1 << S)  /  (1 << S) > bits ;  bits <= (1 << S) - 1 is not recognised
+        for x, y, o in ((L, R, op), (R, L, {ast.Lt: ast.Gt, ast.Gt: ast.Lt}.get(type(op), type(None))())):
+            if pf.nsrc(x) == bits and isinstance(o, ast.Lt):
+                S = None
+                if isinstance(y, ast.BinOp) and isinstance(y.op, ast.LShift) and isinstance(y.left, ast.Constant) and y.left.value == 1:
+                    S = y.right
+                if isinstance(y, ast.BinOp) and isinstance(y.op, ast.Pow) and isinstance(y.left, ast.Constant) and y.left.value == 2:
+                    S = y.right
+                if S is not None:
+                    try:
+                        a, b = _lin(S, ridx)
+                    except AnalysisError:
+                        return None
+                    return -b if a == 1 else None
+        nz = af.compare_leq_zero(t, {ridx: 'I', bl: 'B'})   # d < 0 / d <= 0
+        if nz is None:
+            return None
+        d, strict = nz
+        if d.get('I') == -1 and d.get('B') == 1 and set(d) <= {'I', 'B', '1'} and d.get('1', 0).denominator == 1:
+            return int(d.get('1', 0)) + (1 if strict else 0)   # B - I + c (<|<=) 0  <=>  I >= B + c (+1)
+    return None
+
+
+def _builders_ordered(ctx: Ctx) -> Tuple[bool, str]:
+    """Every `<app>['regions'] = {record['region']: record['region_id'] async for record in db.select_and_fetchall(<SQL>)}` under batch/batch: does the SQL end in
+    ORDER BY region_id [ASC]?  (True, ..) only if all of them do; an unrecognised builder is declined."""
+    sites: List[Tuple[str, bool]] = []
+    for rel in pf.walk_py(['batch/batch']):
+        m = pf.load(rel)
+        if "'regions']" not in m.src and '"regions"]' not in m.src:
+            continue
+        for n in ast.walk(m.tree):
+            if not (isinstance(n, ast.Assign) and len(n.targets) == 1 and isinstance(n.targets[0], ast.Subscript) and pf.const_str(n.targets[0].slice) == RKEY
+                    and (pf.dotted(n.targets[0].value) or '').split('.')[-1] == 'app'):
+                continue
+            fn = m.enclosing_func(n)
+            where = f'{rel}::{m.qualname(fn) if fn is not None else "<module>"}'
+            v = pf.resolve_expr(fn, n.value) if fn is not None else n.value
+            ctx.need(isinstance(v, ast.DictComp) and len(v.generators) == 1 and not v.generators[0].ifs, f"{where}: app['regions'] is not built by a dict comprehension over the rows of `regions` (order not analysed)")
+            it = v.generators[0].iter  # type: ignore[union-attr]
+            sql = pf.const_str(it.args[0]) if isinstance(it, ast.Call) and it.args and (pf.dotted(it.func) or '').split('.')[-1] in ('select_and_fetchall', 'execute_and_fetchall') else None
+            ctx.need(sql is not None, f"{where}: app['regions'] is not read by select_and_fetchall(<literal SQL>) (order not analysed)")
+            toks = sql.replace(';', ' ').lower().split()  # type: ignore[union-attr]
+            tail: List[str] = []
+            for i in range(len(toks) - 1):
+                if toks[i] == 'order' and toks[i + 1] == 'by':
+                    tail = toks[i + 2:]
+            sites.append((where, tail in (['region_id'], ['region_id', 'asc'], ['regions.region_id'], ['regions.region_id', 'asc'])))
+    ctx.need(sites, "no builder of app['regions'] found under batch/batch")
+    unordered = [w for w, o in sites if not o]
+    if unordered:
+        return False, f"{len(unordered)} of the {len(sites)} builder(s) of app['regions'] read them without ORDER BY region_id (e.g. {unordered[0]})"
+    return True, f"all {len(sites)} builders of app['regions'] read the rows ORDER BY region_id"
+
+
+def _early_exit(ctx: Ctx, m: pf.Module, r: pf.FuncDef, rp: List[str], lp: ast.For, rkey: str, ridx: str, exits: List[ast.AST], aw: int, bw: int, app_stmt: Optional[ast.AST],
+                result_src: Optional[str]) -> None:
+    """The loop over the known regions is left before every region was tested.  Every region the job selected must be returned, so an early exit is sound only if NO region that
+    would still be visited can have its bit set.  Decided for exits of the form `if <id> (> | >=) <bits>.bit_length() + c: break` (the id is past the highest set bit) by comparing
+    linear forms: the condition must imply that the bit of the current / next region lies at or above bit_length, AND the regions must be visited in ascending id order - which a
+    dict's .items() (insertion order = row order of an un-ORDERed SELECT) or sorted(.items()) (name order) does not provide."""
+    from engines import asyncfacts as af
+    cons = f'{FU}::regions_bits_rep_to_regions::every region tested'
+    bits = rp[0]
+    ctx.need(len(exits) == 1, f'regions_bits_rep_to_regions: the loop over the known regions is left early at {len(exits)} places (not analysed)')
+    ex = exits[0]
+    if isinstance(ex, ast.Return):
+        ctx.need(ex.value is not None and pf.nsrc(ex.value) == result_src, f'regions_bits_rep_to_regions: `{pf.nsrc(ex)}` inside the loop does not return the accumulated result (not analysed)')
+    holders = [st for st in lp.body if isinstance(st, ast.If) and not st.orelse and len(st.body) == 1 and st.body[0] is ex]
+    ctx.need(len(holders) == 1 and not lp.orelse, f'regions_bits_rep_to_regions: the loop over the known regions is left early by `{pf.nsrc(ex)}` (not a top-level `if <cond>: break` of the loop body; condition not analysed)')
+    hold = holders[0]
+    body = list(lp.body)
+    pos = body.index(hold)
+    app_top = [st for st in body if app_stmt is not None and any(x is app_stmt for x in ast.walk(st))]
+    ctx.need(len(app_top) == 1, 'regions_bits_rep_to_regions: append statement not found in the loop body')
+    after = pos > body.index(app_top[0])   # the current region has already been tested when the exit is taken
+    # nothing before the exit test rebinds the id / the bit set
+    for st in body[:pos] if not after else body:
+        for x in ast.walk(st):
+            ctx.need(not (isinstance(x, ast.Name) and isinstance(x.ctx, ast.Store) and x.id in (ridx, bits)), f'regions_bits_rep_to_regions: `{ridx}` / `{bits}` is rebound inside the loop')
+    test = pf.expand_locals(r, hold.test)
+    bl = f'{bits}.bit_length()'
+    lo = _past_top_bit(test, bits, ridx)
+    ctx.need(lo is not None, f'regions_bits_rep_to_regions: early exit condition `{short(pf.nsrc(hold.test), 60)}` is not of a recognised "past the highest set bit" form '
+             f'({ridx} > {bl} + c, {bits} >> f({ridx}) == 0, {bits} < 1 << f({ridx})); not analysed')
+    # condition  <=>  I >= B + lo
+    ctx.need(aw == 1, 'regions_bits_rep_to_regions: early exit with a non-unit shift (not analysed)')
+    # first region NOT tested once the exit is taken: the current one (exit before the bit test) or any later one (exit after it); in ascending id order a later one has id >= I + 1
+    need_lo = -bw - (1 if after else 0)          # sound iff  I >= B + need_lo, i.e. the first skipped bit position (I + bw [+1]) is >= bit_length
+    order, it_src = _iteration_order(lp)
+    ctx.need(order != 'unknown', f'regions_bits_rep_to_regions: the loop is left early and the order of `{short(it_src, 60)}` is not recognised')
+    built = ''
+    if order == 'insertion':
+        # insertion order of the mapping = the order in which its builders insert: ascending id only if EVERY builder of app['regions'] reads the rows ORDER BY region_id
+        ordered, built = _builders_ordered(ctx)
+        if ordered:
+            order = 'id'
+    cond = '`' + short(pf.nsrc(hold.test), 50) + '` (i.e. `' + (f'{ridx} >= {bl}{lo:+d}' if lo else f'{ridx} >= {bl}') + '`)'
+    if order == 'id':
+        ok = lo >= need_lo
+        # witness: the highest selected id k: B = k + bw + 1; skipped although selected when k >= B + lo  <=>  0 >= bw + 1 + lo
+        k = 3
+        B = k + bw + 1
+        wit = (f'with only region id {k} selected (bits {bin(1 << (k + bw))}, bit_length {B}) the condition already holds at id {k} itself ({k} >= {B}{lo:+d}), before its bit is tested' if not after else
+               f'with regions of ids {k - 1} and {k} known and only id {k} selected (bits {bin(1 << (k + bw))}, bit_length {B}) the condition holds after region id {k - 1} was tested '
+               f'({k - 1} >= {B}{lo:+d}) and region id {k} is never reached')
+        ctx.check(ok, 'R4', cons, f'the loop (ascending id order) is left as soon as {cond}, but the bit of region id k is at position k{bw:+d}, so a region that is still to be tested can be '
+                  f'selected when the exit is taken: {wit}; the decoder returns [] for that job' if not ok else '', m.path, hold.lineno,
+                  detail={'order': 'ascending id', 'exit when': cond, 'sound': f'{ridx} >= bit_length{need_lo:+d} suffices'})
+        return
+    # any other order: a region with a SMALLER id may be visited after the one that triggers the exit
+    j = max(2, 1 + lo)   # with bits == 0b1 (only region id 1 selected, bit_length 1) the exit fires at any id >= 1 + lo
+    ctx.need(j <= 63, f'regions_bits_rep_to_regions: early exit {cond} never fires for ids below 64')
+    how = (f'`{short(it_src, 50)}` visits the pairs in the dict\'s insertion order, i.e. the order in which the rows of `regions` were read, and {built} (without ORDER BY region_id the '
+           'UNIQUE(region) index covers both selected columns, so rows typically come back by NAME)' if order == 'insertion' else f'`{short(it_src, 50)}` visits the pairs in NAME order')
+    ctx.bad('R4', cons, f'the loop over the known regions is left as soon as {cond} ("past the highest selected bit"), which skips every region visited LATER; that is sound only if the regions are '
+            f'visited in ascending id order, but {how}. With {rp[1]} visited as [("a-region", {j}), ("b-region", 1)] and a job restricted to "b-region" (bits 0b1, bit_length 1) the exit fires at '
+            f'"a-region" and the decoder returns [] instead of ["b-region"]: the job is never placed / placed nowhere', m.path, hold.lineno,
+            extra={'order': order, 'exit when': cond})
 
 
 def _decoder_by_position(ctx: Ctx, m: pf.Module, r: pf.FuncDef, rp: List[str], lp: ast.AST, aw: int, bw: int, sh: ast.BinOp) -> None:
